@@ -125,7 +125,10 @@ Lemma delivered_none : forall streams k, ~ In (snd k) (map fst streams) -> deliv
 Proof.
   induction streams as [|st streams IH]; intros k H; [reflexivity|].
   unfold delivered. cbn [flat_map]. fold (delivered streams k).
-  simpl in H. destruct (Nat.eqb_spec (fst st) (snd k)) as [E|NE]; [tauto|]. simpl. apply IH. tauto.
+  simpl in H.
+  match goal with |- context [if ?c then _ else _] => destruct c eqn:E end.
+  - apply Nat.eqb_eq in E. tauto.
+  - simpl. apply IH. tauto.
 Qed.
 
 Lemma docs_sound_nth : forall req streams out, docs_sound req streams out = true ->
@@ -133,10 +136,11 @@ Lemma docs_sound_nth : forall req streams out, docs_sound req streams out = true
   exists t, nth_error out i = Some (k, t) /\ (t = 0%N \/ In t (delivered streams k)).
 Proof.
   induction req as [|k0 r IH]; intros streams [|d o] H i k Hi; simpl in H; try discriminate.
-  - destruct i; discriminate.
+  - destruct i; simpl in Hi; discriminate Hi.
   - rewrite !andb_true_iff in H. destruct H as [[K D] R]. apply key_eqb_eq in K.
     destruct i as [|i]; simpl in *.
-    + inversion Hi; subst k0. exists (snd d). split; [destruct d; simpl in *; subst; reflexivity|].
+    + assert (Ek : k0 = k) by congruence. subst k. clear Hi. exists (snd d).
+      split; [rewrite K; destruct d; reflexivity|].
       apply orb_true_iff in D. destruct D as [D|D]; [left; now apply N.eqb_eq | right; now apply memb_N_In].
     + eapply IH; eauto.
 Qed.
